@@ -48,12 +48,18 @@ def run(ctx):
     #  (2) when accepted, the members are those of the Go-side declarative oracle (spec=...).
     o, i, s = read_lines(ops), read_lines(impl), read_lines(side)
     distinct = set()
-    n_fa = n_invalid = n_invalid_unreachable = n_crash = 0
+    n_fa = n_invalid = n_crash = 0
+    budget = {}
+
+    def report(kind, what, obj):   # at most 4 replay files per kind of disagreement
+        budget[kind] = budget.get(kind, 0) + 1
+        if budget[kind] <= 4:
+            ctx.report(what, obj)
     for k, (op, im) in enumerate(zip(o, i)):
         sd = dict(kv.split("=") for kv in s[k].split()[1:]) if k < len(s) else {}
         if im.startswith("crash:"):
             n_crash += 1
-            ctx.report(f"real code panicked: {im[:200]}", {"op": op, "impl": im})
+            report("crash", f"real code panicked: {im[:200]}", {"op": op, "impl": im})
             continue
         if not op.startswith("fa "):
             continue
@@ -64,15 +70,15 @@ def run(ctx):
         if not valid:
             n_invalid += 1
         if lens_ok and valid and im.startswith("err "):
-            ctx.report(f"valid group definition rejected by the implementation: {im[:200]}", {"op": op, "impl": im})
+            report("valid-rejected", f"valid group definition rejected by the implementation: {im[:200]}", {"op": op, "impl": im})
         if lens_ok and not valid and im.startswith("ok "):
-            ctx.report("invalid filter/annotation accepted silently by the implementation (selection: %s)" % im[:200],
-                       {"op": op, "impl": im, "replay": "VERIF_SEED=%d ./check C14 %s" % (ctx.seed, ctx.tier)})
+            report("invalid-accepted", "invalid filter/annotation accepted silently by the implementation (selection: %s)" % im[:200],
+                   {"op": op, "impl": im, "replay": "VERIF_SEED=%d ./check C14 %s" % (ctx.seed, ctx.tier)})
         if im.startswith("ok "):
             f = im.split()
             if len(f) != 3 or "spec=" + f[1] != f[2]:
-                ctx.report(f"members differ from what the definition means (Go-side oracle): {im[:300]}", {"op": op, "impl": im})
-    for ln, op, im, mo in mism[:10]:
+                report("spec", f"members differ from what the definition means (Go-side oracle): {im[:300]}", {"op": op, "impl": im})
+    for ln, op, im, mo in mism[:6]:
         ctx.report(f"implementation differs from proved model at line {ln}: impl `{im[:200]}` model `{mo[:200]}`",
                    {"stream": "c14", "line": ln, "op": op, "impl": im, "model": mo,
                     "replay": "VERIF_SEED=%d ./check C14 %s" % (ctx.seed, ctx.tier)})
@@ -81,6 +87,7 @@ def run(ctx):
     ctx.cov["input_distribution"] = stats["counters"]
     ctx.cov["fa_ops"] = n_fa
     ctx.cov["fa_ops_invalid_definition"] = n_invalid
+    ctx.cov["disagreements_by_kind"] = budget
     ctx.assumptions = [
         "pools of 0..14 nodes, definitions of 0..6 lines x 1..3 conditions x 0..3 values, generated (seeded); "
         "85% of the definitions reach the code through the real config parser, the rest are built as structs "
